@@ -171,10 +171,27 @@ def matches(cfg, msg):
     return False
 
 
-def run_dump(cfg, hist, path, evs):
+EXTRAS = {
+    "plain": {},
+    "exclude": {"exclude_pgns": [127250, "furunoHeave"]},
+    "include": {"include_pgns": ["furunoHeave", 60928, 130816]},
+    "units+map": {"preferred_units": "ANGLE=deg", "build_network_map": True},
+    "mfr": {"exclude_manufacturer_code": ["Garmin"], "build_network_map": True},
+}
+
+
+def extra_kwargs(name):
+    kw = dict(EXTRAS[name])
+    if "preferred_units" in kw:
+        from nmea2000.consts import PhysicalQuantities as PQ
+        kw["preferred_units"] = {PQ.ANGLE: "deg"}
+    return kw
+
+
+def run_dump(cfg, hist, path, evs, extra="plain"):
     if os.path.exists(path):
         os.remove(path)
-    dec = NMEA2000Decoder(dump_to_file=path, dump_pgns=list(cfg))
+    dec = NMEA2000Decoder(dump_to_file=path, dump_pgns=list(cfg), **extra_kwargs(extra))
     returned = []
     try:
         for name in hist:
@@ -211,7 +228,8 @@ def judge_dump(cfg, returned, content):
 
 
 def _task_b(args):
-    cfgs, depth, tag = args
+    cfgs, depth, tag = args[:3]
+    extra = args[3] if len(args) > 3 else "plain"
     evs = events()
     names = list(evs)
     work = os.path.join(common.WORK, f"c15.{os.getpid()}.{tag}")
@@ -224,7 +242,7 @@ def _task_b(args):
         for cfg in cfgs:
             for d in range(0, depth + 1):
                 for hist in itertools.product(names, repeat=d):
-                    returned, content = run_dump(cfg, hist, path, evs)
+                    returned, content = run_dump(cfg, hist, path, evs, extra)
                     st["runs"] += 1
                     st["lines"] += content.count("\n")
                     if len(returned) >= 2:
@@ -232,8 +250,8 @@ def _task_b(args):
                     for kind, facts, detail in judge_dump(cfg, returned, content):
                         if len(vios) < 40:
                             vios.append({"kind": kind, "facts": dict(facts, part="b"), "signature": f"{kind}:{cfg}:{facts.get('id')}",
-                                         "detail": f"[dump filter={cfg} history={list(hist)}] {detail}",
-                                         "case": {"part": "b", "filter": list(cfg), "history": list(hist)}})
+                                         "detail": f"[dump filter={cfg} decoder options={extra} history={list(hist)}] {detail}",
+                                         "case": {"part": "b", "filter": list(cfg), "history": list(hist), "extra": extra}})
                     if sample is None and len(returned) >= 2 and cfg:
                         sample = {"part": "b", "filter": [str(e) for e in cfg], "history": list(hist), "returned": [m.id for m in returned],
                                   "dump_lines": content.count("\n")}
@@ -264,6 +282,11 @@ def run(ctx):
     depth = 4 if ctx.thorough else 3
     for i, c in enumerate(cfgs):
         tasks.append(("b", ([c], depth, i)))
+    # the dump together with the other decoder features (filters, unit preferences, network map, manufacturer lists)
+    few = [(), (65280,), ("furunoHeave", 127250), ("vesselHeading",)]
+    for j, ex in enumerate(e for e in EXTRAS if e != "plain"):
+        for i, c in enumerate(few):
+            tasks.append(("b", ([c], depth, 100 + 10 * j + i, ex)))
     results = common.pmap(_dispatch, tasks)
     vios, samples = [], []
     a = {"cases": 0, "roundtrips": 0, "nontrivial": 0}
@@ -305,6 +328,6 @@ def replay(ctx, rep):
     else:
         work = ctx.scratch()
         cfg = tuple(c["filter"])
-        returned, content = run_dump(cfg, c["history"], os.path.join(work, "dump.jsonl"), events())
+        returned, content = run_dump(cfg, c["history"], os.path.join(work, "dump.jsonl"), events(), c.get("extra", "plain"))
         res = judge_dump(cfg, returned, content)
     return [{"kind": k, "facts": f, "detail": d, "case": c} for k, f, d in res]
